@@ -487,7 +487,7 @@ class Unit:
                     raise Undecided('%s: cannot parse select! arm' % rec.name)
                 head = inner[pos:ma.start()]
                 hm = im[pos:ma.start()]
-                if head.strip() == 'else':
+                if hm.strip() == 'else' or re.sub(r'//[^\n]*', '', head).strip() == 'else':
                     j = ma.end()
                     while im[j] in ' \t\n':
                         j += 1
